@@ -286,6 +286,9 @@ func (p *pooler) build(t reflect.Type, fuel int) []Gen {
 				f = 0
 			}
 			fps[i] = head(p.pool(t.Field(i).Type, f), 5)
+			if t.Field(i).Name == "_" && len(fps[i]) > 1 {
+				fps[i] = fps[i][:1] // blank fields are not part of a struct's value (== ignores them)
+			}
 			if prod < 1<<20 {
 				prod *= len(fps[i])
 			}
